@@ -164,7 +164,13 @@ fn eval_all(text: &str, std_store: bool, id: usize) -> Value {
     fill_store(&gd2, std_store);
     let b3 = enc_result(&dm.execute(&src));
     let store_b3 = store_dump(&gd2);
-    json!({"a": a, "b1": b1, "b2": b2, "b3": b3, "c": c, "probe": pa && pb, "store": store, "store_b": store_b, "store_b3": store_b3})
+    // path d: sources without identity (id 0: <param expr>, namelist items, <foreach item>, computed texts) on one datamodel:
+    // a different text evaluated before must not influence the value (fresh store, fresh datamodel)
+    let gd4 = make_store(std_store);
+    let mut dm4 = RFsmExpressionDatamodel::new(gd4.clone());
+    let d0 = enc_result(&dm4.execute(&Data::Source(SourceCode::new("424242", 0))));
+    let d = enc_result(&dm4.execute(&Data::Source(SourceCode::new(text, 0))));
+    json!({"a": a, "b1": b1, "b2": b2, "b3": b3, "c": c, "d0": d0, "d": d, "probe": pa && pb, "store": store, "store_b": store_b, "store_b3": store_b3})
 }
 
 pub fn run_file(input: &str, output: &str) -> std::io::Result<()> {
